@@ -27,17 +27,17 @@ import (
 )
 
 type env struct {
-	w     *world.World
-	ctx   sdk.Context
+	w       *world.World
+	ctx     sdk.Context
 	v, s, m world.Actor
-	usdt  scen.Token
-	val   sdk.ValAddress
-	chain string
+	usdt    scen.Token
+	val     sdk.ValAddress
+	chain   string
 }
 
 func e18(n int64) *big.Int { return new(big.Int).Mul(big.NewInt(n), big.NewInt(1e18)) }
 
-func setup() *env {
+func setup(slashed bool) *env {
 	w := world.New(world.Config{Validators: 2, Actors: []string{"bank", "v", "s", "m", "rel"}})
 	ctx := w.Root
 	e := &env{w: w, ctx: ctx, v: w.A("v"), s: w.A("s"), m: w.A("m"), val: w.Vals[0].ValAddr(), chain: "eth"}
@@ -69,6 +69,15 @@ func setup() *env {
 	// the attacker has its own stake and tokens, so that failures are about authorization, not about missing funds
 	must(w.CallABI(ctx, e.m, stAddr, stABI, nil, 3_000_000, "delegateV2", e.val.String(), e18(100)))
 	w.MustDeliver(ctx, &erc20types.MsgConvertCoin{Coin: sdk.NewInt64Coin("usdt", 50), Receiver: e.m.Hex().String(), Sender: e.m.Bech()})
+	if slashed {
+		// the validator lost half of its tokens: one share is now worth half a token, so amounts counted in shares
+		// (delegations, allowances) and amounts counted in tokens differ
+		val, _ := w.App.StakingKeeper.GetValidator(ctx, e.val)
+		power := sdk.TokensToConsensusPower(val.Tokens, sdk.DefaultPowerReduction)
+		if _, err := w.App.StakingKeeper.Slash(ctx, w.Vals[0].ConsAddr(), ctx.BlockHeight(), power, sdkmath.LegacyNewDecWithPrec(5, 1)); err != nil {
+			panic(err)
+		}
+	}
 	// rewards accrue
 	for i := 0; i < 2; i++ {
 		next, r := w.NextBlock(ctx, 5*time.Second)
@@ -139,11 +148,12 @@ func reduced(before, after map[string]string) []string {
 }
 
 type method struct {
-	name    string
-	addr    common.Address
-	abi     abi.ABI
-	args    func(e *env) []interface{}
-	value   *big.Int
+	label string // display name when several argument shapes of one method are offered
+	name  string
+	addr  common.Address
+	abi   abi.ABI
+	args  func(e *env) []interface{}
+	value *big.Int
 }
 
 func methods() []method {
@@ -152,22 +162,27 @@ func methods() []method {
 	var target [32]byte
 	copy(target[:], "eth")
 	return []method{
-		{"transferFromShares", sa, st, func(e *env) []interface{} { return []interface{}{e.val.String(), e.v.Hex(), e.m.Hex(), e18(10)} }, nil},
-		{"transferShares", sa, st, func(e *env) []interface{} { return []interface{}{e.val.String(), e.m.Hex(), e18(10)} }, nil},
-		{"approveShares", sa, st, func(e *env) []interface{} { return []interface{}{e.val.String(), e.m.Hex(), e18(1000)} }, nil},
-		{"undelegateV2", sa, st, func(e *env) []interface{} { return []interface{}{e.val.String(), e18(10)} }, nil},
-		{"redelegateV2", sa, st, func(e *env) []interface{} { return []interface{}{e.val.String(), e.w.Vals[1].ValAddr().String(), e18(10)} }, nil},
-		{"withdraw", sa, st, func(e *env) []interface{} { return []interface{}{e.val.String()} }, nil},
-		{"delegateV2", sa, st, func(e *env) []interface{} { return []interface{}{e.val.String(), e18(1)} }, nil},
-		{"cancelSendToExternal", ca, cc, func(e *env) []interface{} { return []interface{}{"eth", big.NewInt(1)} }, nil},
-		{"increaseBridgeFee", ca, cc, func(e *env) []interface{} { return []interface{}{"eth", big.NewInt(1), common.Address{}, big.NewInt(1)} }, big.NewInt(1)},
-		{"crossChain", ca, cc, func(e *env) []interface{} {
+		{"", "transferFromShares", sa, st, func(e *env) []interface{} { return []interface{}{e.val.String(), e.v.Hex(), e.m.Hex(), e18(10)} }, nil},
+		{"transferFromShares(allowance+1)", "transferFromShares", sa, st, func(e *env) []interface{} { return []interface{}{e.val.String(), e.v.Hex(), e.m.Hex(), e18(41)} }, nil},
+		{"", "transferShares", sa, st, func(e *env) []interface{} { return []interface{}{e.val.String(), e.m.Hex(), e18(10)} }, nil},
+		{"", "approveShares", sa, st, func(e *env) []interface{} { return []interface{}{e.val.String(), e.m.Hex(), e18(1000)} }, nil},
+		{"", "undelegateV2", sa, st, func(e *env) []interface{} { return []interface{}{e.val.String(), e18(10)} }, nil},
+		{"", "redelegateV2", sa, st, func(e *env) []interface{} {
+			return []interface{}{e.val.String(), e.w.Vals[1].ValAddr().String(), e18(10)}
+		}, nil},
+		{"", "withdraw", sa, st, func(e *env) []interface{} { return []interface{}{e.val.String()} }, nil},
+		{"", "delegateV2", sa, st, func(e *env) []interface{} { return []interface{}{e.val.String(), e18(1)} }, nil},
+		{"", "cancelSendToExternal", ca, cc, func(e *env) []interface{} { return []interface{}{"eth", big.NewInt(1)} }, nil},
+		{"", "increaseBridgeFee", ca, cc, func(e *env) []interface{} {
+			return []interface{}{"eth", big.NewInt(1), common.Address{}, big.NewInt(1)}
+		}, big.NewInt(1)},
+		{"", "crossChain", ca, cc, func(e *env) []interface{} {
 			return []interface{}{e.usdt.ERC20, scen.ExtAddr("eth", "m-ext"), big.NewInt(3), big.NewInt(1), target, ""}
 		}, nil},
-		{"bridgeCall", ca, cc, func(e *env) []interface{} {
+		{"", "bridgeCall", ca, cc, func(e *env) []interface{} {
 			return []interface{}{"eth", e.m.Hex(), []common.Address{e.usdt.ERC20}, []*big.Int{big.NewInt(3)}, common.HexToAddress(scen.ExtAddr("eth", "callee")), []byte{1}, big.NewInt(0), []byte{}}
 		}, nil},
-		{"executeClaim", ca, cc, func(e *env) []interface{} { return []interface{}{"eth", big.NewInt(99)} }, nil},
+		{"", "executeClaim", ca, cc, func(e *env) []interface{} { return []interface{}{"eth", big.NewInt(99)} }, nil},
 	}
 }
 
@@ -185,8 +200,6 @@ func run(thorough bool) func(shard, shards int, deadline time.Time) *explore.Res
 	return func(shard, shards int, deadline time.Time) *explore.Result {
 		start := time.Now()
 		res := &explore.Result{Spec: "c10", Outcomes: map[string]int{}, Counters: map[string]int{}, ViolationCounts: map[string]int{}, Exhaustive: true, DeterminismOK: true, Extra: map[string]float64{}}
-		e := setup()
-		w := e.w
 		viol := func(sig, oracle, detail string, path ...string) {
 			res.ViolationCounts[sig]++
 			for _, v := range res.Violations {
@@ -198,144 +211,152 @@ func run(thorough bool) func(shard, shards int, deadline time.Time) *explore.Res
 		}
 		distinct := map[string]bool{}
 		caseNo := 0
-		for _, m := range methods() {
-			data := pack(m, e)
-			// ---- (1) direct calls by the attacker, by the spender and by the victim
-			for _, who := range []world.Actor{e.m, e.s, e.v} {
-				caseNo++
-				if caseNo%shards != shard {
-					continue
+		for _, slashed := range []bool{false, true} {
+			e := setup(slashed)
+			w := e.w
+			envName := map[bool]string{false: "", true: "slashed-validator: "}[slashed]
+			for _, m := range methods() {
+				data := pack(m, e)
+				if m.label == "" {
+					m.label = m.name
 				}
-				ctx := world.Branch(e.ctx)
-				before := e.portfolio(ctx, e.v)
-				r := w.EthTx(ctx, who, &m.addr, data, m.value, 3_000_000)
-				after := e.portfolio(ctx, e.v)
-				res.Transitions++
-				res.Extra["evaluations"]++
-				name := fmt.Sprintf("%s calls %s directly", who.Name, m.name)
-				res.Outcomes[fmt.Sprintf("direct/%s=%v", who.Name, r.Success())]++
-				distinct[fmt.Sprintf("direct/%s/%s/%v", who.Name, m.name, r.Success())] = true
-				if len(res.Samples) < 3 {
-					res.Samples = append(res.Samples, []string{name, r.String()})
-				}
-				if who.Name == "v" {
-					continue // the owner may do what it likes with its own assets
-				}
-				red := reduced(before, after)
-				if len(red) == 0 {
-					continue
-				}
-				if who.Name == "s" && m.name == "transferFromShares" && r.Success() {
-					// allowance-backed move: exactly the moved amount leaves and the allowance drops by it
-					want := []string{
-						fmt.Sprintf("allowance-v1-s: %s -> %s", e18(40), e18(30)),
-					}
-					ok := len(red) == 2 && red[0] == want[0] && strings.HasPrefix(red[1], "shares-v1: 100000000000000000000.") && strings.Contains(red[1], "-> 90000000000000000000.")
-					if !ok {
-						viol("C10/allowance-backed-move-wrong/"+m.name, "allowance-move-is-exact", fmt.Sprintf("%s: %v", name, red), name)
-					}
-					res.Counters["allowance-backed-move"]++
-					continue
-				}
-				viol(fmt.Sprintf("C10/third-party-reduced-by-direct-call/%s", m.name), "only-the-direct-caller-pays", fmt.Sprintf("%s (tx %s) changed the victim's portfolio: %v", name, r, red), name)
-			}
-			// ---- (2) calls through an attacker contract, for every call kind, started by the attacker and by the victim
-			for _, kind := range kinds {
-				for _, starter := range []world.Actor{e.m, e.v} {
+				// ---- (1) direct calls by the attacker, by the spender and by the victim
+				for _, who := range []world.Actor{e.m, e.s, e.v} {
 					caseNo++
 					if caseNo%shards != shard {
 						continue
 					}
 					ctx := world.Branch(e.ctx)
-					var x common.Address
-					switch kind {
-					case "CALL-inside-STATICCALL":
-						inner := evmasm.Program{Actions: []evmasm.Action{{Call: &evmasm.CallAction{Kind: evmasm.CALL, To: m.addr, Data: data, After: evmasm.Record, RecordSlot: 1}}}}
-						// inner cannot SSTORE inside a static frame: use Ignore there
-						inner.Actions[0].Call.After = evmasm.Require
-						y := w.Deploy(ctx, e.m, inner.InitCode())
-						outer := evmasm.Program{Actions: []evmasm.Action{{Call: &evmasm.CallAction{Kind: evmasm.STATICCALL, To: y, Data: nil, After: evmasm.Record, RecordSlot: 1}}}}
-						x = w.Deploy(ctx, e.m, outer.InitCode())
-					default:
-						k := map[string]evmasm.Kind{"CALL": evmasm.CALL, "STATICCALL": evmasm.STATICCALL, "DELEGATECALL": evmasm.DELEGATECALL, "CALLCODE": evmasm.CALLCODE}[kind]
-						prog := evmasm.Program{Actions: []evmasm.Action{{Call: &evmasm.CallAction{Kind: k, To: m.addr, Data: data, After: evmasm.Record, RecordSlot: 1, Value: nil}}}}
-						x = w.Deploy(ctx, e.m, prog.InitCode())
-					}
-					// the contract holds FX and tokens of its own, so that a plain CALL can succeed on its own account
-					scen.Fund(w, ctx, sdk.AccAddress(x.Bytes()), sdk.NewCoins(world.FXCoin(1000)))
 					before := e.portfolio(ctx, e.v)
-					dBefore := w.Dump(ctx)
-					r := w.EthTx(ctx, starter, &x, nil, nil, 5_000_000)
+					r := w.EthTx(ctx, who, &m.addr, data, m.value, 3_000_000)
 					after := e.portfolio(ctx, e.v)
-					flag := w.Slot(ctx, x, 1).Big().Uint64()
 					res.Transitions++
 					res.Extra["evaluations"]++
-					name := fmt.Sprintf("%s -> contract -%s-> %s", starter.Name, kind, m.name)
-					res.Outcomes[fmt.Sprintf("%s/inner-success=%d", kind, flag)]++
-					distinct[fmt.Sprintf("%s/%s/%s/%d", starter.Name, kind, m.name, flag)] = true
-					if len(res.Samples) < 6 {
-						res.Samples = append(res.Samples, []string{name, r.String(), fmt.Sprintf("inner call success flag=%d", flag)})
+					name := envName + fmt.Sprintf("%s calls %s directly", who.Name, m.label)
+					res.Outcomes[fmt.Sprintf("direct/%s=%v", who.Name, r.Success())]++
+					distinct[fmt.Sprintf("%sdirect/%s/%s/%v", envName, who.Name, m.label, r.Success())] = true
+					if len(res.Samples) < 3 {
+						res.Samples = append(res.Samples, []string{name, r.String()})
 					}
-					if red := reduced(before, after); len(red) > 0 {
-						viol(fmt.Sprintf("C10/third-party-reduced-through-contract/%s/%s", kind, m.name), "only-the-direct-caller-pays", fmt.Sprintf("%s changed the victim's portfolio: %v", name, red), name)
+					if who.Name == "v" {
+						continue // the owner may do what it likes with its own assets
 					}
-					if kind != "CALL" {
-						// non-writable / foreign-context call kinds: a state-changing method must fail and leave no native effect
-						if flag == 1 {
-							viol(fmt.Sprintf("C10/state-changing-method-succeeds-in-%s", kind), "writable-context-only", fmt.Sprintf("%s: the precompile call returned success", name), name)
-						}
-						// no native effect: every store except the EVM's own bookkeeping of the outer transaction is unchanged
-						diff := world.DiffDumps(dBefore, w.Dump(ctx))
-						var native []string
-						for _, d := range diff {
-							if strings.HasPrefix(d, "evm/") || strings.HasPrefix(d, "acc/") || strings.HasPrefix(d, "feemarket/") {
-								continue
-							}
-							native = append(native, d)
-						}
-						if len(native) > 0 {
-							viol(fmt.Sprintf("C10/native-effect-in-%s/%s", kind, m.name), "writable-context-only", fmt.Sprintf("%s left native effects: %v", name, native[:min(4, len(native))]), name)
-						}
-					}
-				}
-			}
-			// ---- (3) governance switch: disabled address / method cannot execute, not even for the owner
-			for _, entry := range []string{m.addr.String(), strings.ToLower(m.addr.String()), m.addr.String() + "/" + fmt.Sprintf("%x", m.abi.Methods[m.name].ID), strings.ToUpper(m.addr.String()[2:])} {
-				caseNo++
-				if caseNo%shards != shard {
-					continue
-				}
-				ctx := world.Branch(e.ctx)
-				dr := w.Deliver(ctx, &fxgovtypes.MsgUpdateSwitchParams{Authority: world.GovAuthority(), Params: fxgovtypes.SwitchParams{DisablePrecompiles: []string{entry}}})
-				if !dr.OK() {
-					res.Outcomes["switch/update-rejected"]++
-					continue
-				}
-				dBefore := w.Dump(ctx)
-				r := w.EthTx(ctx, e.v, &m.addr, data, m.value, 3_000_000)
-				res.Transitions++
-				res.Extra["evaluations"]++
-				isAddrEntry := !strings.Contains(entry, "/") && strings.HasPrefix(entry, "0x")
-				name := fmt.Sprintf("switch[%s]: v calls %s", entry, m.name)
-				res.Outcomes[fmt.Sprintf("switch/success=%v", r.Success())]++
-				distinct["switch/"+entry+"/"+m.name] = true
-				effective := isAddrEntry || strings.Contains(entry, "/")
-				if !effective {
-					continue // an entry that is not an address spelling disables nothing
-				}
-				if r.Success() {
-					viol("C10/disabled-precompile-executes/"+m.name, "governance-switch-respected", name+" succeeded", name)
-					continue
-				}
-				var native []string
-				for _, d := range world.DiffDumps(dBefore, w.Dump(ctx)) {
-					if strings.HasPrefix(d, "evm/") || strings.HasPrefix(d, "acc/") || strings.HasPrefix(d, "feemarket/") {
+					red := reduced(before, after)
+					if len(red) == 0 {
 						continue
 					}
-					native = append(native, d)
+					if who.Name == "s" && m.label == "transferFromShares" && r.Success() {
+						// allowance-backed move: exactly the moved amount leaves and the allowance drops by it
+						want := []string{
+							fmt.Sprintf("allowance-v1-s: %s -> %s", e18(40), e18(30)),
+						}
+						ok := len(red) == 2 && red[0] == want[0] && strings.HasPrefix(red[1], "shares-v1: 100000000000000000000.") && strings.Contains(red[1], "-> 90000000000000000000.")
+						if !ok {
+							viol("C10/allowance-backed-move-wrong/"+m.name, "allowance-move-is-exact", fmt.Sprintf("%s: %v", name, red), name)
+						}
+						res.Counters["allowance-backed-move"]++
+						continue
+					}
+					viol(fmt.Sprintf("C10/third-party-reduced-by-direct-call/%s", m.name), "only-the-direct-caller-pays", fmt.Sprintf("%s (tx %s) changed the victim's portfolio: %v", name, r, red), name)
 				}
-				if len(native) > 0 {
-					viol("C10/disabled-precompile-has-effect/"+m.name, "governance-switch-respected", fmt.Sprintf("%s: %v", name, native[:min(4, len(native))]), name)
+				// ---- (2) calls through an attacker contract, for every call kind, started by the attacker and by the victim
+				for _, kind := range kinds {
+					for _, starter := range []world.Actor{e.m, e.v} {
+						caseNo++
+						if caseNo%shards != shard {
+							continue
+						}
+						ctx := world.Branch(e.ctx)
+						var x common.Address
+						switch kind {
+						case "CALL-inside-STATICCALL":
+							inner := evmasm.Program{Actions: []evmasm.Action{{Call: &evmasm.CallAction{Kind: evmasm.CALL, To: m.addr, Data: data, After: evmasm.Record, RecordSlot: 1}}}}
+							// inner cannot SSTORE inside a static frame: use Ignore there
+							inner.Actions[0].Call.After = evmasm.Require
+							y := w.Deploy(ctx, e.m, inner.InitCode())
+							outer := evmasm.Program{Actions: []evmasm.Action{{Call: &evmasm.CallAction{Kind: evmasm.STATICCALL, To: y, Data: nil, After: evmasm.Record, RecordSlot: 1}}}}
+							x = w.Deploy(ctx, e.m, outer.InitCode())
+						default:
+							k := map[string]evmasm.Kind{"CALL": evmasm.CALL, "STATICCALL": evmasm.STATICCALL, "DELEGATECALL": evmasm.DELEGATECALL, "CALLCODE": evmasm.CALLCODE}[kind]
+							prog := evmasm.Program{Actions: []evmasm.Action{{Call: &evmasm.CallAction{Kind: k, To: m.addr, Data: data, After: evmasm.Record, RecordSlot: 1, Value: nil}}}}
+							x = w.Deploy(ctx, e.m, prog.InitCode())
+						}
+						// the contract holds FX and tokens of its own, so that a plain CALL can succeed on its own account
+						scen.Fund(w, ctx, sdk.AccAddress(x.Bytes()), sdk.NewCoins(world.FXCoin(1000)))
+						before := e.portfolio(ctx, e.v)
+						dBefore := w.Dump(ctx)
+						r := w.EthTx(ctx, starter, &x, nil, nil, 5_000_000)
+						after := e.portfolio(ctx, e.v)
+						flag := w.Slot(ctx, x, 1).Big().Uint64()
+						res.Transitions++
+						res.Extra["evaluations"]++
+						name := envName + fmt.Sprintf("%s -> contract -%s-> %s", starter.Name, kind, m.label)
+						res.Outcomes[fmt.Sprintf("%s/inner-success=%d", kind, flag)]++
+						distinct[fmt.Sprintf("%s%s/%s/%s/%d", envName, starter.Name, kind, m.label, flag)] = true
+						if len(res.Samples) < 6 {
+							res.Samples = append(res.Samples, []string{name, r.String(), fmt.Sprintf("inner call success flag=%d", flag)})
+						}
+						if red := reduced(before, after); len(red) > 0 {
+							viol(fmt.Sprintf("C10/third-party-reduced-through-contract/%s/%s", kind, m.name), "only-the-direct-caller-pays", fmt.Sprintf("%s changed the victim's portfolio: %v", name, red), name)
+						}
+						if kind != "CALL" {
+							// non-writable / foreign-context call kinds: a state-changing method must fail and leave no native effect
+							if flag == 1 {
+								viol(fmt.Sprintf("C10/state-changing-method-succeeds-in-%s", kind), "writable-context-only", fmt.Sprintf("%s: the precompile call returned success", name), name)
+							}
+							// no native effect: every store except the EVM's own bookkeeping of the outer transaction is unchanged
+							diff := world.DiffDumps(dBefore, w.Dump(ctx))
+							var native []string
+							for _, d := range diff {
+								if strings.HasPrefix(d, "evm/") || strings.HasPrefix(d, "acc/") || strings.HasPrefix(d, "feemarket/") {
+									continue
+								}
+								native = append(native, d)
+							}
+							if len(native) > 0 {
+								viol(fmt.Sprintf("C10/native-effect-in-%s/%s", kind, m.name), "writable-context-only", fmt.Sprintf("%s left native effects: %v", name, native[:min(4, len(native))]), name)
+							}
+						}
+					}
+				}
+				// ---- (3) governance switch: disabled address / method cannot execute, not even for the owner
+				for _, entry := range []string{m.addr.String(), strings.ToLower(m.addr.String()), m.addr.String() + "/" + fmt.Sprintf("%x", m.abi.Methods[m.name].ID), strings.ToUpper(m.addr.String()[2:])} {
+					caseNo++
+					if caseNo%shards != shard {
+						continue
+					}
+					ctx := world.Branch(e.ctx)
+					dr := w.Deliver(ctx, &fxgovtypes.MsgUpdateSwitchParams{Authority: world.GovAuthority(), Params: fxgovtypes.SwitchParams{DisablePrecompiles: []string{entry}}})
+					if !dr.OK() {
+						res.Outcomes["switch/update-rejected"]++
+						continue
+					}
+					dBefore := w.Dump(ctx)
+					r := w.EthTx(ctx, e.v, &m.addr, data, m.value, 3_000_000)
+					res.Transitions++
+					res.Extra["evaluations"]++
+					isAddrEntry := !strings.Contains(entry, "/") && strings.HasPrefix(entry, "0x")
+					name := envName + fmt.Sprintf("switch[%s]: v calls %s", entry, m.label)
+					res.Outcomes[fmt.Sprintf("switch/success=%v", r.Success())]++
+					distinct[envName+"switch/"+entry+"/"+m.label] = true
+					effective := isAddrEntry || strings.Contains(entry, "/")
+					if !effective {
+						continue // an entry that is not an address spelling disables nothing
+					}
+					if r.Success() {
+						viol("C10/disabled-precompile-executes/"+m.name, "governance-switch-respected", name+" succeeded", name)
+						continue
+					}
+					var native []string
+					for _, d := range world.DiffDumps(dBefore, w.Dump(ctx)) {
+						if strings.HasPrefix(d, "evm/") || strings.HasPrefix(d, "acc/") || strings.HasPrefix(d, "feemarket/") {
+							continue
+						}
+						native = append(native, d)
+					}
+					if len(native) > 0 {
+						viol("C10/disabled-precompile-has-effect/"+m.name, "governance-switch-respected", fmt.Sprintf("%s: %v", name, native[:min(4, len(native))]), name)
+					}
 				}
 			}
 		}
@@ -355,9 +376,9 @@ func min(a, b int) int {
 
 func init() {
 	registry.Register(&registry.Check{
-		ID:    "C10",
-		Level: "model_checking",
-		Rule:  "exhaustive enumeration of (starter in {attacker, spender, victim}) x (direct call | attacker contract using CALL, STATICCALL, DELEGATECALL, CALLCODE, CALL nested inside a STATICCALL frame) x (12 state-changing precompile methods with arguments naming the victim's assets) x (governance switch entry: address, lower-case address, address/method) executed as signed EVM transactions against a victim portfolio (FX, usdt coin and ERC-20 with approval to the precompile, delegation with rewards, allowance to a spender, pool entry); oracle: the victim's portfolio is not reduced except by the allowance-backed move, which is exact; non-CALL contexts fail and leave no native store change; disabled entries cannot execute. states = distinct (case, outcome) classes, transitions = transactions executed",
+		ID:          "C10",
+		Level:       "model_checking",
+		Rule:        "exhaustive enumeration of (starter in {attacker, spender, victim}) x (direct call | attacker contract using CALL, STATICCALL, DELEGATECALL, CALLCODE, CALL nested inside a STATICCALL frame) x (12 state-changing precompile methods with arguments naming the victim's assets) x (governance switch entry: address, lower-case address, address/method) executed as signed EVM transactions against a victim portfolio (FX, usdt coin and ERC-20 with approval to the precompile, delegation with rewards, allowance to a spender, pool entry); oracle: the victim's portfolio is not reduced except by the allowance-backed move, which is exact; non-CALL contexts fail and leave no native store change; disabled entries cannot execute. states = distinct (case, outcome) classes, transitions = transactions executed",
 		Assumptions: []string{"contracts are hand-assembled straight-line programs (evmasm); the victim's own direct calls are unconstrained"},
 		Jobs: func(tier string) []registry.Job {
 			return []registry.Job{{Name: "callers-x-kinds-x-methods", Custom: run(tier == "thorough"), Shards: 8}}
